@@ -365,6 +365,16 @@ class GraphBranch(Kernel):
                           s.truth(st.f["changed"]) == self.c0, st.f["_set"].t == z3.Const("bound_set", Obj))
 
         eng.invariants[1] = inv
+        # the contract of pytree.map(self._set, ...) writes the memo held by `self`: the loop modifies `self` although no statement assigns to it
+        orig_assigned = eng.assigned_names
+
+        def assigned_names(stmts, p=None):
+            out = set(orig_assigned(stmts, p))
+            if any(isinstance(n, ast.Call) and ast.unparse(n.func) == "pytree.map" for st in stmts for n in ast.walk(st)):
+                out.add("self")
+            return out
+
+        eng.assigned_names = assigned_names
         eng.local_types = dict(getattr(eng, "local_types", {}), new_inputs=("list", "obj"))
         isx = lambda c: uf("is_" + c, Obj, B)(self.x)  # noqa
         pre = [self.n >= 0, self.distinct, z3.Not(z3.Select(self.has0, idof(self.x)))]
